@@ -423,6 +423,64 @@ int LLVMFuzzerTestOneInput(const uint8_t *data, size_t size) {
   }
   return 0;
 }
+#elif defined(T_POLY)
+// The DKG's polynomial evaluations (C07 / C08: public key shares are derived from the verification vector, a share is
+// checked against them):  E2_polynomial_image(A, x) = sum_k x^k A_k  for every vector A, including vectors with
+// entries at infinity and entries in Jacobian form, and  Fr_polynomial_image(a, x) = sum_k a_k x^k  with y = that·g2.
+// The coefficients are small known multiples c_k of the generator, so the expected value (sum_k c_k x^k)·g2 is
+// computed in plain 64-bit integer arithmetic: degree <= 5, c_k < 2^16, x <= 255 keep the sum below 2^63.
+int LLVMFuzzerTestOneInput(const uint8_t *data, size_t size) {
+  if (size < 2)
+    return 0;
+  int degree = data[0] % 6;
+  byte x = data[1] ? data[1] : 1;
+  if (size < 2 + 3 * (size_t)(degree + 1))
+    return 0;
+  E2 A[6];
+  Fr a[6];
+  uint64_t c[6];
+  for (int k = 0; k <= degree; k++) {
+    const uint8_t *q = data + 2 + 3 * k;
+    c[k] = ((uint64_t)q[0] << 8) | q[1];
+    Fr_set_limb(&a[k], (limb_t)c[k]);
+    if (c[k] == 0) {
+      E2_set_infty(&A[k]);
+    } else if (q[2] & 1) {
+      G2_mult_gen(&A[k], &a[k]); // projective representation
+    } else {
+      G2_mult_gen_to_affine(&A[k], &a[k]);
+    }
+  }
+  uint64_t sum = 0, pw = 1;
+  for (int k = 0; k <= degree; k++) {
+    sum += c[k] * pw;
+    pw *= x;
+  }
+  Fr s;
+  Fr_set_limb(&s, (limb_t)sum);
+  E2 want;
+  G2_mult_gen(&want, &s);
+  E2 y;
+  E2_polynomial_image(&y, A, degree, x);
+  if (!E2_is_equal(&y, &want))
+    TRAP("E2_polynomial_image differs from (sum c_k x^k)·g2");
+  Fr img;
+  E2 y2;
+  Fr_polynomial_image(&img, &y2, a, degree, x);
+  if (!Fr_is_equal(&img, &s))
+    TRAP("Fr_polynomial_image differs from sum a_k x^k");
+  if (!E2_is_equal(&y2, &want))
+    TRAP("Fr_polynomial_image: y differs from P(x)·g2");
+  if (x <= 6) { // the batch form used by the DKG: y[i] = Q(i+1)
+    E2 ys[6];
+    E2_polynomial_images(ys, x, A, degree);
+    if (!E2_is_equal(&ys[x - 1], &want))
+      TRAP("E2_polynomial_images[x-1] differs from Q(x)");
+  }
+  if (G2_check_log(&s, &want) != 1)
+    TRAP("G2_check_log rejects s·g2");
+  return 0;
+}
 #else
-#error "define one of T_SER_E1 T_SER_E2 T_SER_FR T_SUM_VECTOR T_LAGRANGE T_G2_VECTOR T_VERIFY T_MULTI"
+#error "define one of T_SER_E1 T_SER_E2 T_SER_FR T_SUM_VECTOR T_LAGRANGE T_G2_VECTOR T_VERIFY T_MULTI T_POLY"
 #endif
